@@ -14,6 +14,46 @@ CLAIMED = {
          "Thorough enumerates every constructible (method, degree) and integrates every real spherical harmonic with l <= degree (exhaustive: true); quick runs all grids below a cost threshold plus a seeded quarter of the rest and always the two known-finding probes. Oracle: own normalised Legendre recurrence (self-tested against mpmath), tolerance 1e-9 (healthy <= 3.3e-12, defective data >= 5e-5).",
          "Trusted: the reference harmonics in pbt/oracles/sph.py (self-test vs mpmath on every run), file names as the list of constructible grids. Two data defects are known findings keyed on (method, degree).",
          "DESIGN.md section 3, C02"),
+ "C03": ("Hypothesis-generated transform descriptors (11 classes + InverseRTransform, integer and non-integer k/m, trim on/off, explicit and inferred b, array and scalar input) compared method by method with an independent mpmath model: maps retyped from the class docstrings at 40 digits, every derivative by mp.diff",
+         "transform, inverse, three derivatives, three inverse derivatives, round trip, monotonicity and reference end points are decided for about 11 000 generated cases per quick run and 290 000 per thorough run; the 'symbolic identity' is replaced by 40-digit numerical differentiation over generated parameters and points (evidence, not proof). Pinned regression cases cover the repaired HandyMod.deriv3 and the Knowles end point.",
+         "Trusted: mpmath arithmetic and mp.diff (cross-checked against SymPy symbolic derivatives in a self test); the docstrings as specification (Exp/Power forward docstrings are garbled and read through their documented inverse and r(0)=rmin, r(b)=rmax); tolerance = 1e-9 relative plus 1e3*eps conditioning terms, ill-conditioned points skipped and counted. Two known findings (Hyperbolic domain end, inverse at infinity) are matched by narrow predicates.",
+         "DESIGN.md section 3, C03"),
+ "C04": ("Hypothesis-generated (rule, n) x admissible transform x integrand; the grid returned by transform_1d_grid is compared with an mpmath change of variables (nodes F(x_i), weights w_i*|F'(x_i)| with F' from mp.diff rather than tf.deriv, the sum, signs, the ordered image domain); Gauss-Legendre exactness transported through LinearFinite with an own Legendre recurrence",
+         "About 10 500 cases per quick run and 230 000 per thorough run; 24 rules x 12 transform classes, n <= 41 (81 thorough); every shifted Legendre degree k <= 2n-1 in the transport clause.",
+         "Trusted: the same mpmath model as C03; the rule's nodes and weights are data (C01). Nodes on a singular end (infinite r or r') are checked for value only. Known findings (signed Jacobian of MultiExp, nan domain ends, trimmed domain below a node) are matched by narrow buggy models, each with a pinned probe.",
+         "DESIGN.md section 3, C04"),
+ "C05": ("Hypothesis-generated JSON descriptors of an atomic grid (radial nodes incl. r=0, 4 methods, every constructor route, centre, Python/NumPy seed) with every point and weight compared with its (shell, angular node) pair reconstructed from the shipped data files by an independent loader, metamorphic relations (same seed, other seed, translation, per-shell grid) and the factorisation of the integral of g(r)Y_lm with independent harmonics; all 17 preset files x every tabulated element enumerated completely",
+         "About 8k (quick) / 150k (thorough) generated configurations plus the exhaustive preset x element enumeration (1855 Lebedev cases; the other 3 methods sampled in quick, complete in thorough).",
+         "Trusted: the shipped angular data files and their file-name table (pbt/oracles/data_loader.py), pbt/oracles/sph.py (self-tested against mpmath), NumPy leggauss for the preset radial grids, the dtype convention of the preset tables. Sector-boundary nodes (within 1e-9) are skipped. Two data findings are known (sg_3/Si cannot be built; sg_0/N,P list surplus sizes).",
+         "DESIGN.md section 3, C05"),
+ "C09": ("on Hypothesis-generated atomic grids a seeded band-limited f = sum g_lm(r) Y_lm (independent harmonics) gives closed-form right-hand sides for angular integration, spline values, absent components and grid-point reproduction; on band-limited and arbitrary data the interpolant is compared with sum spline*Y at special points (centre, axis, knots) and every derivative mode with central differences of the interpolant itself or SciPy spline derivatives; MolGrid.interpolate against the sum of atomic interpolants of w_A f in all six modes",
+         "About 4.5k (quick) / 72k (thorough) generated cases across three sub-checks.",
+         "Trusted: pbt/oracles/sph.py, the exactness of the shipped angular grids (C02), SciPy CubicSpline evaluation. Finite-difference tolerances 1e-6*scale plus truncation and round-off terms. First derivatives at the centre are not compared. Known finding KF-C09-axis-gradient (first derivatives on the z-axis through the centre) is matched by an input predicate plus a value signature.",
+         "DESIGN.md section 3, C09"),
+ "C06": ("Hypothesis-generated molecules, point sets and segment tables compared with a loop-level Becke reference written from the docstrings/paper definition (self-tested against 40-digit arithmetic), plus identities (bounds, sum = 1, nucleus values), agreement of all evaluation routes, relabelling and rigid-motion metamorphic relations, and Hirshfeld shares against an own natural spline of the shipped pro-atom tables",
+         "Quick about 6 400 cases, thorough about 140 000, with a measured class histogram (1-10 atoms, chunked path, elements without radius, nuclei among points, far points to 1e6).",
+         "Trusted: the Bragg-Slater table (cross-checked against Slater 1964) and the pro-atom npz files as data; the 0.45 clip as documented default; tolerance models 64*eps*M*1.9*1.5^order*(1+|x|/R_min), 100x that for rigid motion, 64*M*eps for identities.",
+         "DESIGN.md section 3, C06"),
+ "C07": ("Hypothesis-generated molecules and constructor argument combinations: the molecular grid is compared with the concatenation built here from AtomGrid objects and the Becke reference, store on/off compared exactly, each classmethod compared by exact array equality with the hand-built grid (default radial grids rebuilt from the documented table); end-to-end charge of Gaussian sums against the analytic total inside/outside a calibrated region",
+         "Quick about 2 500 cases, thorough about 76 000. The 1 % clause is enforced outside a region calibrated on about 1.1 M single-Gaussian integrals (worst outside 0.42 %); inside the region (compressed pairs) only errors >= 20 % are violations (known finding).",
+         "Trusted: AtomGrid, OneDGrid, PowerRTransform, UniformInteger and the Lebedev data (C01-C05, C12) build the hand-made side; _DEFAULT_POWER_RTRANSFORM_PARAMS and CODATA constants; Bragg radii for the region predicate; positive coefficients only; summation-order tolerance 512*eps*sum|wf|. Known findings: molgrid[i] under store=True; the 1 % region.",
+         "DESIGN.md section 3, C07"),
+ "C10": ("model-based Hypothesis histories shrunk as one JSON value: one grid instance of any type plus a list of query / reassign-points / reassign-weights / select steps, each interpreted against the real object and a harness-owned model of the current points and weights; every local grid compared with a brute-force distance filter, every selection with a list-of-positions model",
+         "9 000 histories per quick run and 180 000 per thorough run, pinned regression cases for the four repaired defects; measured shares: 58 % query after a reassignment, 49 % empty ball, every grid kind 11-13 %, every index kind 13-47 %.",
+         "Trusted: NumPy elementwise arithmetic and fancy indexing, the harness distance filter (sum of squares), the grid's public .points/.weights right after construction as the definition of parent points. Points within 1e-9*scale of the sphere are excluded; empty selections and out-of-domain OneDGrid selections may raise ValueError.",
+         "DESIGN.md section 3, C10"),
+ "C11": ("Hypothesis-generated cells (dimension 1-3, 0..dim skewed/negative lattice vectors, wrap on/off, 1-D arrays) with 1-3 queries each; the library's local grid is decomposed into (parent index, integer translation) pairs and compared as a set with a brute-force enumeration of all integer translations in a provably complete box filtered by plain distance",
+         "12 000 cells per quick run and 300 000 per thorough run, pinned cases for the four repaired defects; shares: 35 % duplicated parent indices, 40 % empty results, 64 % negative and 52 % skewed lattices.",
+         "Trusted: NumPy linear algebra (pseudo-inverse bound widened by 2, outer layer asserted empty at run time), the harness distance filter, the grid's public .points after optional wrapping (wrap itself checked to 1e-9). Images within 1e-9*scale of the sphere are excluded, except the untranslated point bit-identical to the centre, which must be returned. Infinite radius is outside the domain (pinned ValueError).",
+         "DESIGN.md section 3, C11"),
+ "C13": ("Hypothesis-generated grid descriptors (shapes 2..12 in 2-D/3-D, signed and skewed axes, 1-D rule products, molecules, cube contents over 40 orders of magnitude, tri-cubic coefficients with derivative orders) with exhaustive enumeration of every flat index of each generated grid and of every shape in {2..12}^d for all five weight schemes; each clause compared with a definition-level reference",
+         "About 25 000 (quick) / 250 000 (thorough) generated grids; index maps both ways for all nodes, tensor weights and separable integrals, weight-sum bound, from_molecule margins, closest_point vs brute-force argmin, cube round trip in both unit conventions against the printed-precision bound, cubic/log/linear interpolation and derivatives against closed forms.",
+         "Trusted: NumPy linear algebra and numpy.polynomial closed forms; itertools.product as the definition of lexicographic order; the rigorous printed-precision bound for cube files; a typed CODATA bohr/angstrom constant; the stated interpolation error model. Known findings (Fourier2, from_molecule margin) are matched by buggy-model reconstructions.",
+         "DESIGN.md section 3, C13"),
+ "C17": ("Hypothesis over alpha in [1e-6,1e6] and r in {0, below/at/above the 1e-12 switch, log-uniform to 1e300, r ~ 1/sqrt(alpha)} for scalar/array/list input, compared with the 50-digit mpmath Coulomb integral of the documented density (incomplete gamma functions, self-tested against mp.quad and the radial Poisson equation); finite-difference Poisson residual, far-field charge, switch continuity, unnormalised factor; multi-centre routine against sum c*single-centre and mp; loader enumerated exhaustively for Z = 1..118 with all spellings",
+         "About 21 700 (quick) / 318 000 (thorough) cases; loader exhaustive.",
+         "Trusted: mpmath gammainc/gamma/exp at 50 digits (cross-checked by quadrature in the selftest); the docstring densities as the specification; json.load of atomic_gauss_params.json for the loader. Known finding KF-C17-ptype is matched only by its closed-form offset.",
+         "DESIGN.md section 3, C17"),
  "C08": ("Hypothesis-generated degrees (0..400) and structured angles (poles, equator, 1e-15..1e-3 neighbourhoods, 2pi images, azimuth in [-20,20]) against an independent extended-precision normalised recurrence, re-validated per run against a 40-digit mpmath definition; difference quotients, addition theorem, explicit Cartesian table, conversion round trip",
          "Both harmonics implementations, the derivative routine, solid_harmonics and convert_cart_to_sph are compared with definition-level references under a stated eps x condition-scale error model (measured worst 2.5 units of 300 allowed); about 8 200 quick / 71 000 thorough generated cases per run.",
          "Trusted: numpy cos/sin/arctan2/longdouble arithmetic, mpmath, scipy eval_legendre, the documented convention (no Condon-Shortley phase, Horton-2 order). Polar angles in (pi,2pi) are outside the asserted region; within |sin phi| <= 1e-3 of a pole only finiteness of the polar derivative is asserted (documented convention).",
